@@ -22,7 +22,7 @@ Rej(ln, w, core, clause) ==
   PrintT(ToJson([reject |-> 1, t |-> ln.t, i |-> ln.i, w |-> w, core |-> core, clause |-> clause]))
 
 JudgeClass(ln) ==
-  IF ln.fn \notin Fns \/ (ln.fn = "Request") # (ln.slot \in Slots) \/ (ln.fn = "RequestBody") # (ln.slot \in BodySlots) \/ Len(ln.kd) # Len(Table[ln.fn]) \/ Len(ln.ty) # Len(ln.kd)
+  IF ln.fn \notin Fns \/ (ln.fn = "Request") # (ln.slot \in Slots) \/ (ln.fn = "RequestBody") # (ln.slot \in BodySlots) \/ (ln.fn = "RequestPart") # (ln.slot \in PartSlots) \/ Len(ln.kd) # Len(Table[ln.fn]) \/ Len(ln.ty) # Len(ln.kd)
      \/ ln.n < 1 \/ Len(ln.ex) < 1
   THEN Rej(ln, 0, TRUE, "MalformedTraceLine")
   ELSE /\ IF \A e \in 1..Len(ln.ex) : InDomain(ln.ex[e]) THEN TRUE ELSE Rej(ln, 0, TRUE, "OutOfDomain")
